@@ -725,3 +725,6 @@ PROPS["C09"]["claim"] += (" WHOLE (Proofs/EndToEnd/WholeC09.lean): generated_ses
 PROPS["C09"]["proofs"] = PROPS["C09"]["proofs"] + ["Bmc.Proofs.EndToEnd.HistoryC09Fail"]
 PROPS["C09"]["claim"] += (" WITH SERIALISATION FAILURES (Proofs/EndToEnd/HistoryC09Fail.lean): generated_history_sequence_numbers_any / generated_history_no_reuse_any — the same history theorems about SendCommand AS TRANSLATED "
                           "when some commands of the history fail to serialise: such a call consumes no sequence number, the datagrams around it are numbered consecutively.")
+PROPS["C05"]["proofs"] = PROPS["C05"]["proofs"] + ["Bmc.Proofs.EndToEnd.HistoryC05"]
+PROPS["C05"]["claim"] += (" HISTORY FORM about the translated code (Proofs/EndToEnd/HistoryC05.lean): generated_history_never_panics — over a whole history of commands run by SendCommand AS TRANSLATED on one session, with ANY bytes delivered "
+                          "as replies at any point of any call, no call ends in RF.panic (the translation's rendering of a Go run-time panic): every call returns a completion code or an error.")
